@@ -441,7 +441,12 @@ def qr_payloads(ctx, rng, nchunk):
     if not ctx.proof.ok:
         nd, ne = 290, 150
     cases = [c['case'] for c in common.corpus_cases('C15') if c.get('stream') in ('qr-direct', 'qr-engine')]
-    cases += [gen_qr_case(rng, ctx.seed * 100000 + i, False) for i in range(nd)]
+    direct = [gen_qr_case(rng, ctx.seed * 100000 + i, False) for i in range(nd)]
+    for i, c in enumerate(direct):
+        # stratified: the rarely drawn corner "one tensor only, no error" for both directions and both SVD routes
+        if i % 20 in (7, 17):
+            c.update({'compute_err': False, 'both': False, 'move_right': i % 20 == 7, 'eig': (i // 20) % 2 == 1})
+    cases += direct
     cases += [gen_qr_case(rng, ctx.seed * 100000 + 50000 + i, True) for i in range(ne)]
     # directed: no minimum block increase, tiny chi_max, charge conservation (old bond leg has charge blocks that the new
     # leg (vL.p0) lacks once the neighbouring bond was truncated)
